@@ -17,6 +17,15 @@ CHECKS = {
  "C03": ("TLC model checking of IncExplainer.tla in SAGE mode + behaviour replay + TLC trace validation (argument and value clauses) in GF(p)",
          "Chain structure, mean-then-loss, contribution, tracker commits and offsets are invariants / step functions of the specification; TLC validates every recorded call (subsets handed to the imputer, arguments of each loss call, all five trackers) and TLC behaviours are replayed into IncrementalSage.",
          "as C02; label sets grow in both model tables", "§4 C03"),
+ "C07": ("TLC exhaustive model checking of Storages.tla (5 kinds, every reservoir outcome) + behaviour replay into the deterministic storages and the p=1 reservoir + TLC trace validation with the reservoir outcome inferred",
+         "Sub-multiset, count, alignment and the per-kind content laws are TLC invariants over all update sequences and all accept/slot outcomes; every recorded update of the five real classes must be a specification successor of the logged content (TLC infers the random outcome).",
+         "x and y carry different encodings of the arrival id; reservoir outcomes that need an assumption on how a uniform draw maps to acceptance are only validated in direction B", "§4 C07"),
+ "C08": ("TLC distribution-transformer model checking (ReservoirLaw.tla, exact rationals: UniformSubsets, UniformInclusion) + AlgorithmL.tla control structure with StaleW negative control + calibrated statistics of the code against the TLC-exported law + white-box skip check",
+         "The law (every k-subset equally likely) is a TLC invariant of the specification's push-forward kernel; the implementation's Algorithm L has a continuous hidden weight, so the code is bound statistically: seeded runs against the exported law with exact binomial tails at 1e-10 per cell, plus a deterministic check that each new skip is computed from the updated weight.",
+         "global generators trusted uniform; statistical binding (false alarm < 1e-8 per run, deterministic per VERIF_SEED)", "§4 C08"),
+ "C09": ("TLC distribution-transformer model checking (ReservoirLaw.tla: GeometricLaw, AlwaysStoredWhenPOne) + exact distribution of the real class by enumerating its draws, compared with TLC's pmf after every arrival",
+         "The inclusion law is a TLC invariant in exact rationals for p in {0,1/3,1/2,2/3,1,1/k}; the exact distribution of GeometricReservoirStorage (all uniform draws on an aligned grid x all slots, equal states merged) equals the pmf exported by TLC state for state.",
+         "acceptance region located on a 60-cell grid aligned with p; generators trusted uniform", "§4 C09"),
  "C10": ("TLC exhaustive model checking of Trackers.tla closed forms over exact rationals + every TLC state replayed into the trackers + TLC validation of recorded transitions in GF(p)",
          "All streams over a 5-letter alphabet up to length 5-7 are enumerated by TLC with the closed forms, linearity, hull and shift/scale laws as invariants; each state is replayed into the real classes (Fraction, float, NumPy) and generic transitions of the code are validated by TLC as polynomial identities.",
          "induction over the stream length is at the specification level; the code's single step is bound by identity testing mod p", "§4 C10"),
